@@ -39,8 +39,9 @@
     only `if enc.indentPrefix != "" || enc.indentValue != ""` (encoding/json stream.go), so
     `JsonIndent("", "")` returns the COMPACT bytes (`json.MarshalIndent` would put every member
     on its own line).  `mapJsonIndent` below models `json.Indent` structurally (trusted base:
-    encoding/json; sampled against the real function, see the examples in
-    Mxj.Props.C16ExtForms).
+    encoding/json; compared byte for byte with the real `Map.JsonIndent` on every C06 run —
+    driver op `jenci`, harness/c06.go — and see the examples in Mxj.Props.C16ExtForms; that
+    `NewMapJson` reads it back is proved in Mxj.Props.C06ExtIndent).
 
   Not modelled: a failing `io.Writer` (the abstract `Sink` accepts every write — the forms just
   return the Writer's error, having no further effect), `os.Create` failing (the file forms
